@@ -1192,7 +1192,9 @@ class EvalMixin:
             if x in fr.env or x in hints:
                 if x == index:
                     t = self.p.fresh(index)
-                    fr.env[x] = SInt(t) if self.bv is None else SBV(z3.Int2BV(t, self.bv), self.bv)
+                    # bit-vector mode: the head index is at most the trip count, so it inherits the count's bit bound
+                    ibits = min(self.bv, count.bound) if self.bv is not None and isinstance(count, SBV) else self.bv
+                    fr.env[x] = SInt(t) if self.bv is None else SBV(z3.Int2BV(t, self.bv), ibits)
                     self.p.assume(z3.And(t >= 0, t <= self.it(count)))
                     if self.bv is not None:
                         self.p.assume(t < (1 << (self.bv - 1)))
